@@ -392,7 +392,7 @@ class Reporter:
         if bysig:
             os.makedirs(rdir, exist_ok=True)
         for i, (sig, ws) in enumerate(sorted(bysig.items())):
-            if i >= 40:
+            if i >= 120:
                 print('  signature: %s  (x%d)' % (sig, len(ws)))
                 continue
             path = os.path.join(rdir, 'v%s_%03d.json' % (self.tier[0], i))
